@@ -240,9 +240,10 @@ theorem value_hasDerivAt (ψ d10 : ℝ → ℝ → ℝ) (pf : ℝ) (w : Img ℝ)
     simp only [hWk, hA, Img.at]; ring
   rw [e1, e2, e3]; ring
 
-/-- **the Hessian-times-vector is the directional derivative of the gradient** (zero centre weight) -/
+/-- **the Hessian-times-vector is the directional derivative of the gradient** (any weights; the potential's `d10` vanishes
+    on the diagonal, so the centre weight plays no role) -/
 theorem grad_hasDerivAt (d10 d20 d11 : ℝ → ℝ → ℝ) (pf : ℝ) (w : Img ℝ) (κ : Option (Img ℝ)) (b wb : Box) (lam v : Img ℝ) (t0 : ℝ)
-    (hw0 : w 0 0 0 = 0) (z y x : Int) (hr : InBox b z y x)
+    (h10 : ∀ a : ℝ, d10 a a = 0) (z y x : Int) (hr : InBox b z y x)
     (hd : ∀ r s, r ∈ boxF b → s ∈ boxF b → subV s r ∈ boxF wb → r ≠ s →
       HasDerivAt (fun t => d10 (lam.at r + t * v.at r) (lam.at s + t * v.at s))
         (d20 (lam.at r + t0 * v.at r) (lam.at s + t0 * v.at s) * v.at r
@@ -255,7 +256,7 @@ theorem grad_hasDerivAt (d10 d20 d11 : ℝ → ℝ → ℝ) (pf : ℝ) (w : Img 
   refine nbSum_hasDerivAt b wb z y x _ _ t0 fun dz dy dx hdw hin => ?_
   by_cases h0 : dz = 0 ∧ dy = 0 ∧ dx = 0
   · obtain ⟨rfl, rfl, rfl⟩ := h0
-    simp only [hw0, zero_mul]
+    simp only [add_zero, h10, mul_zero, zero_mul, and_self, if_true]
     exact hasDerivAt_const _ _
   · rw [if_neg h0]
     have hne : ((z, y, x) : V) ≠ (z + dz, y + dy, x + dx) := by
